@@ -4,10 +4,10 @@ import os, re
 META = dict(
     explanation="compareRanks (amd64 uint64 fast path and the portable loop) on fully symbolic results against the lexicographic rank order; "
                 "Merger.Get/mergedGet for arbitrary probe orders against the stable global order; PassMerger with partial first/last chunks; sliceChunks.",
-    functions=["fzf.compareRanks (result_x86.go)", "compareRanks of result_others.go (tag-stripped copy)", "fzf.NewMerger", "fzf.(*Merger).Get", "fzf.(*Merger).mergedGet",
+    functions=["fzf.compareRanks (result_x86.go)", "compareRanks of result_others.go (tag-stripped copy)", "fzf.buildResult", "util.(*Chars).TrimLength", "sort.Sort(ByOrder)", "fzf.NewMerger", "fzf.(*Merger).Get", "fzf.(*Merger).mergedGet",
                "fzf.PassMerger", "fzf.(*Merger).FindIndex", "fzf.CountItems", "fzf.(*Matcher).sliceChunks", "fzf.(*Matcher).Loop / scan (coroutine / inline workers), sort.Sort(ByRelevance)"],
     outside=["that each partition's list really is sorted (sort.Sort on ByRelevance)", "goroutine scheduling and channel hand-off in Matcher.scan", "list sizes beyond the bounds",
-             "buildResult's positional sort keys (not built yet)"],
+             "non-ASCII lines in buildResult (pathname compares a byte index with a character index)"],
     models=["unsafe uint64 load over [4]uint16 = little-endian concatenation of the four cells"],
     assumptions=["chunkSize scaled to 3 for PassMerger"],
 )
@@ -23,6 +23,9 @@ def suites(tier):
             jobs.append(dict(id=jid("merge", cfg), func="zzH_C04_merge", cfg=cfg))
         cfg = dict(tac=tac, chunks=3 if q else 4)
         jobs.append(dict(id=jid("pass", cfg), func="zzH_C04_pass", cfg=cfg))
+    for crit in range(6):
+        cfg = dict(criterion=crit, nmax=3 if q else 5)
+        jobs.append(dict(id=jid("key", cfg), func="zzH_C04_key", cfg=cfg))
     cfg = dict(chunks=12 if q else 70, parts=5 if q else 32)
     jobs.append(dict(id=jid("slice", cfg), func="zzH_C04_slice", cfg=cfg))
     # order of the published list after sort toggles / query edits with the per-chunk cache in play
